@@ -68,6 +68,13 @@ add("C14", "exploration",
     "Trusted: the pinned table internal/forkx/refconsts.json (reviewed against the published presets/configs), the reference ForkData root, the chain harness. Electra/fulu: look-ups only (no transition in this library).",
     "finite exhaustive enumeration of configurations x epochs, chains replayed on the implementation", "DESIGN.md 3/C14")
 
+add("C03", "model_checking",
+    "At every state of the base histories (all forks), every single-rule corruption from a 117-entry mutator table written rule by rule from the specification (header, randao, attestations, proposer/attester slashings, exits incl. exits added to exit-free blocks, deposits, BLS changes, sync aggregate, payload/withdrawals/blob commitments; signature replays under every other domain type, fork version and chain) of every base block (default and operation-carrying blocks), in two forms: (a) original proposer signature, validateResult=true; (b) proposer signature redone, validateResult=false so that the rule under test is the only thing that can reject. The reference model decides: rejects => zrnt must return an error; still valid => zrnt must accept with an identical post-state; a panic is a violation in every case.",
+    chnote, "bounded exhaustive enumeration of single-rule corruptions over explored chain states, verdict by a reference model", "DESIGN.md 3/C03")
+add("C18", "fault_enumeration",
+    "For every transition (StateTransition of a block, or ProcessSlots) of the base histories and one-deviation variants: a counting run learns the P context polls (with their call sites) and the E engine calls; then EVERY cancellation point (context cancelled from poll i on, i = 0..P-1) and EVERY non-trivial engine verdict vector in {valid, invalid, error}^E is executed on the real transition and must surface as an error (no panic); the undisturbed instrumented run must reproduce the plain post-state; recorded engine arguments (payload root, versioned hashes in commitment order, parent beacon block root) are compared with what the specification prescribes.",
+    chnote + " A cancellation after the last poll of a transition is unobservable by any caller and not claimed.", "exhaustive fault-point enumeration (every context poll x every engine verdict vector) on the implementation", "DESIGN.md 3/C18")
+
 claimed = {c["property_id"] for c in checks}
 na = [{"property_id": "C%02d" % i, "reason": "check not built yet (work in progress; same technique planned, see DESIGN.md section 3)"}
       for i in range(1, 21) if "C%02d" % i not in claimed]
@@ -80,7 +87,7 @@ m = {"version": 1,
      "engines": [
          {"name": "seqx", "path": "internal/seqx", "serves_properties": ["C09", "C10", "C11", "C16", "C20"],
           "kind_free_text": "explicit-state BFS over operation sequences on the real object, replay-from-root, exact state merging on (model state, full private-state dump)"},
-         {"name": "chainx", "path": "internal/chainx, internal/chainh, internal/refspec, internal/refssz", "serves_properties": ["C01", "C02", "C07", "C08", "C13", "C14"],
+         {"name": "chainx", "path": "internal/chainx, internal/chainh, internal/refspec, internal/refssz", "serves_properties": ["C01", "C02", "C03", "C07", "C08", "C13", "C14", "C18"],
           "kind_free_text": "deviation-bounded exhaustive explorer over beacon-chain histories; real zrnt transition vs reference specification model on every step"},
          {"name": "enumx", "path": "internal/numx, internal/shufx", "serves_properties": ["C06", "C19"],
           "kind_free_text": "bounded exhaustive enumeration of input shapes/values against reference implementations"}],
